@@ -884,6 +884,18 @@ class Fn:
                 if dk == 'p:?' and init and self.fresh_matrix(nm, init[0]) is not None:
                     out += self.fresh_matrix(nm, init[0], pad, emit=True)
                     continue
+                if dk == 'p:?' and init and strip(init[0]).get('kind') == 'CallExpr' and \
+                   strip(strip(init[0])['inner'][0]).get('referencedDecl', {}).get('name') == 'mzp_init':
+                    # a fresh permutation: the identity of the given length (TRUSTED semantics of mzp_init)
+                    mem = 'mem1_%s_values' % nm
+                    self.locals[mem] = 'm1i'
+                    self.wfields.add((nm, 'values'))
+                    out += '%slet %s : Int → Int := (fun i => i)\n' % (pad, V(mem))
+                    out += '%slet %s__begin : Int := (0 : Int)\n' % (pad, V(nm))
+                    self.salias[nm] = (nm, '%s__begin' % V(nm))
+                    zero = dict(kind='IntegerLiteral', value='0', type=dict(qualType='int'))
+                    self.salias_len[nm] = (strip(init[0])['inner'][1], zero)
+                    continue
                 if dk == 'p:?' and init and nm in self.salias_pre:
                     c0 = strip(init[0])
                     a = strip(c0['inner'][1])
@@ -926,6 +938,15 @@ class Fn:
                and self.fresh_matrix(nm_, s['inner'][1]) is not None:
                 return self.fresh_matrix(nm_, s['inner'][1], pad, emit=True) + self.seq(rest, k_final, ind)
             raise CTransError('%s: assignment to the struct pointer %s' % (self.name, nm_))
+        if k == 'BinaryOperator' and s.get('opcode') == '=' and strip(s['inner'][0]).get('kind') == 'DeclRefExpr' and \
+           strip(s['inner'][1]).get('kind') == 'CallExpr' and \
+           strip(strip(s['inner'][1])['inner'][0]).get('referencedDecl', {}).get('name') in (self.tr.externs or {}):
+            c0 = strip(s['inner'][1])
+            fname = strip(c0['inner'][0])['referencedDecl']['name']
+            nm_ = strip(s['inner'][0])['referencedDecl']['name']
+            if nm_ not in self.locals:
+                raise CTransError('%s: assignment to non-local %s' % (self.name, nm_))
+            return self.extern_call(fname, self.pick_ext(fname, c0['inner'][1:]), c0['inner'][1:], V(nm_), pad) + self.seq(rest, k_final, ind)
         self.pending = []
         a = self.assign_stmt(s) if k in ('BinaryOperator', 'CompoundAssignOperator', 'UnaryOperator') and s.get('opcode') != ',' else None
         if a:
@@ -1646,7 +1667,7 @@ class Translator:
             stmts = list(body.get('inner', []))
             if rt == 'void' or retparam:
                 outs = [x for x in fn.assigned(stmts) if (x.startswith('mem_') or x.startswith('mem1_')) and
-                        not any(x == 'mem_' + l_ for l_ in fn.local_mats(body))]
+                        not any(x == 'mem_' + l_ or x == 'mem1_%s_values' % l_ for l_ in fn.local_mats(body))]
                 if not outs:
                     raise CTransError('%s: void function that writes no modelled memory' % cname)
                 fn.void_outs = outs
@@ -1666,10 +1687,15 @@ class Translator:
                 fn.ret_type = rt
                 if fn.ret_kind not in LTYPE:
                     raise CTransError('%s: return type %r' % (cname, rt))
-                fn.ret_mems = [x for x in fn.assigned(stmts) if x.startswith('mem_')]
+                fn.ret_mems = [x for x in fn.assigned(stmts) if (x.startswith('mem_') or x.startswith('mem1_')) and
+                               not any(x == 'mem_' + l_ or x == 'mem1_%s_values' % l_ for l_ in fn.local_mats(body))]
                 for m_ in fn.ret_mems:
-                    fn.locals[m_] = 'm2'
-                    fn.free(V(m_), 'm2', ('mem', m_[4:]))
+                    if m_.startswith('mem1_'):
+                        fn.locals[m_] = 'm1i'
+                        fn.free(V(m_), 'm1i', ('field',) + tuple(m_[5:].split('_', 1)))
+                    else:
+                        fn.locals[m_] = 'm2'
+                        fn.free(V(m_), 'm2', ('mem', m_[4:]))
                 term = fn.seq(stmts, lambda: (_ for _ in ()).throw(CTransError('%s: control reaches the end without return' % cname)), 1)
                 rty = fn.ret_lean_type()
         else:
@@ -1869,9 +1895,14 @@ def catalogue(t):
     F('m4ri/mzp.c', 'mzd_apply_p_left_trans', 'mzdApplyPLeftTrans', fuels=['(v_A_nrows).toNat'])
     F('m4ri/mzd.c', 'mzd_set_ui', 'mzdSetUi', fuels=['(v_A_nrows).toNat', '(v_A_width).toNat', '(v_A_nrows).toNat'])
     TRSM = dict(mats=(0, 1), writes=(1,))
+    PLUQ = dict(mats=(0,), perms=(1, 2), ret='i', writes=(0,), pwrites=(1, 2))
+    F('m4ri/ple.c', '_mzd_pluq', 'pluqFromPle', externs={'_mzd_ple': PLUQ, 'mzd_apply_p_right_trans_tri': dict(mats=(0,), perms=(1,), writes=(0,))},
+      doc='PLUQ from PLE: the column swaps on the first r rows (or on all of A)')
     F('m4ri/solve.c', '_mzd_pluq_solve_left', 'pluqSolveLeft', fuels=['(v_B_nrows).toNat', '(v_B_ncols).toNat'],
       externs={'mzd_trsm_lower_left': TRSM, 'mzd_trsm_upper_left': TRSM, 'mzd_addmul': dict(mats=(0, 1, 2), writes=(0,))},
       doc='solving with a given PLUQ factorisation; the triangular solves and the product are function parameters')
+    F('m4ri/solve.c', '_mzd_solve_left', 'solveLeftTop', externs={'_mzd_pluq': PLUQ, 'mzd_pluq_solve_left': dict(mats=(0, 4), perms=(2, 3), ret='i', writes=(4,))},
+      doc='mzd_solve_left: padding-row test, then PLUQ and the solve with the factorisation (function parameters)')
     R, W = '(v_A_nrows).toNat', '(v_A_width).toNat'
     F('m4ri/mzd.c', 'mzd_find_pivot', 'mzdFindPivot', outparams=('r', 'c'),
       fuels=['(v_A_ncols).toNat + 1', R, '64', R, '64', W, R, '64', R, '64'])
